@@ -628,6 +628,11 @@ impl<'a> Printer<'a> {
             self.mb(Slot::BetweenItems);
         }
         self.ob(Slot::FileEnd);
+        // a final newline is optional, also right after a line comment
+        let b = self.next(Slot::FileEnd);
+        if b % 2 == 1 && self.out.ends_with('\n') {
+            self.out.pop();
+        }
     }
 }
 
